@@ -31,6 +31,7 @@ VARIABLES content,                 \* what the caller hands to the writer: conte
           garbled                  \* a row position was filled from a line that is not a line of numbers (the code only warns)
 vars == <<content, file, owner, wpc, wt, wp, pos, buf, rpc, ip, ri, times, cur, out, garbled>>
 wvars == <<content, file, owner, wpc, wt, wp>>
+rvars == <<pos, buf, rpc, ip, ri, times, cur, out, garbled>>
 T == Len(content)
 
 BlockLines(kind) == CASE kind = "N" -> <<"NODATA">> [] kind = "Z" -> <<"ZERO">>
@@ -44,14 +45,14 @@ Init == /\ content \in UNION {[1..n -> [1..NLOC -> Kinds]] : n \in (IF TIMED THE
 WTime == /\ wpc = "time" /\ wt <= T
          /\ file' = IF TIMED THEN Append(file, "time") ELSE file
          /\ owner' = IF TIMED THEN Append(owner, <<wt, 0>>) ELSE owner
-         /\ wpc' = "blocks" /\ wp' = 1 /\ UNCHANGED <<content, wt>>
+         /\ wpc' = "blocks" /\ wp' = 1 /\ UNCHANGED <<content, wt>> /\ UNCHANGED rvars
 WBlock == /\ wpc = "blocks"
           /\ LET b == BlockLines(content[wt][wp]) IN
              /\ file' = file \o b /\ owner' = owner \o [k \in 1..Len(b) |-> <<wt, wp>>]
           /\ IF wp = NLOC THEN wt' = wt + 1 /\ wpc' = "time" /\ wp' = 1 ELSE wp' = wp + 1 /\ UNCHANGED <<wt, wpc>>
-          /\ UNCHANGED content
-WClose == /\ wpc = "time" /\ wt > T /\ wpc' = "closed" /\ UNCHANGED <<content, file, owner, wt, wp>>
-Writer == (WTime \/ WBlock \/ WClose) /\ UNCHANGED <<pos, buf, rpc, ip, ri, times, cur, out, garbled>>
+          /\ UNCHANGED content /\ UNCHANGED rvars
+WClose == /\ wpc = "time" /\ wt > T /\ wpc' = "closed" /\ UNCHANGED <<content, file, owner, wt, wp>> /\ UNCHANGED rvars
+Writer == WTime \/ WBlock \/ WClose
 
 (* ------------------------------- reader: one action per readline / _read_header ------------------------------- *)
 HdrPc(kw) == CASE kw = "NODATA" -> "hdr_NODATA" [] kw = "ZERO" -> "hdr_ZERO" [] OTHER -> "hdr_FACTOR"
@@ -60,26 +61,26 @@ NextLoc(blk) == IF ip = NLOC THEN /\ cur' = Append(cur, blk) /\ rpc' = "ret_ok" 
 
 REnter == /\ wpc = "closed" /\ rpc = "idle"
           /\ rpc' = (IF TIMED THEN "time" ELSE "hdr_NODATA") /\ ip' = 1 /\ cur' = <<>>
-          /\ UNCHANGED <<pos, buf, ri, times, out, garbled>>
+          /\ UNCHANGED <<pos, buf, ri, times, out, garbled>> /\ UNCHANGED wvars
 RTime == /\ rpc = "time"
          /\ LET r == ReadLine(file, pos) IN
             /\ pos' = r.pos
             /\ IF r.i = 0 THEN rpc' = "ret_none" /\ UNCHANGED times
                ELSE IF file[r.i] = "time" THEN rpc' = "hdr_NODATA" /\ times' = Append(times, r.i)
                ELSE rpc' = "error" /\ UNCHANGED times                 \* strptime raises ValueError
-         /\ UNCHANGED <<buf, ip, ri, cur, out, garbled>>
+         /\ UNCHANGED <<buf, ip, ri, cur, out, garbled>> /\ UNCHANGED wvars
 RHdr(kw) == /\ rpc = HdrPc(kw)
             /\ LET h == Hdr(file, pos, buf, kw) IN
                /\ pos' = h.pos /\ buf' = h.buf
                /\ IF h.ok THEN IF kw = "FACTOR" THEN rpc' = "fac" /\ cur' = Append(cur, [kind |-> "pending", at |-> IF h.rl > 0 THEN h.rl ELSE buf]) /\ UNCHANGED ip
                                ELSE NextLoc([kind |-> KindOfKw(kw), at |-> IF h.rl > 0 THEN h.rl ELSE buf])
                   ELSE /\ rpc' = (IF NextTry(kw) = "none" THEN "ret_none" ELSE HdrPc(NextTry(kw))) /\ UNCHANGED <<ip, cur>>
-            /\ UNCHANGED <<ri, times, out, garbled>>
+            /\ UNCHANGED <<ri, times, out, garbled>> /\ UNCHANGED wvars
 RFac == /\ rpc = "fac"
         /\ LET r == ReadLine(file, pos) IN
            /\ pos' = r.pos
            /\ IF KindAt(file, r.i) = "num" THEN rpc' = "rows" /\ ri' = 1 ELSE rpc' = "error" /\ UNCHANGED ri     \* float() raises
-        /\ UNCHANGED <<buf, ip, times, cur, out, garbled>>
+        /\ UNCHANGED <<buf, ip, times, cur, out, garbled>> /\ UNCHANGED wvars
 RRow == /\ rpc = "rows"
         /\ LET r == ReadLine(file, pos)
                blk == [kind |-> "F", at |-> cur[Len(cur)].at]
@@ -90,13 +91,15 @@ RRow == /\ rpc = "rows"
               THEN IF ip = NLOC THEN cur' = Append(done, blk) /\ rpc' = "ret_ok" /\ UNCHANGED <<ip, ri>>
                    ELSE cur' = Append(done, blk) /\ ip' = ip + 1 /\ rpc' = "hdr_NODATA" /\ UNCHANGED ri
               ELSE ri' = ri + 1 /\ UNCHANGED <<rpc, ip, cur>>
-        /\ UNCHANGED <<buf, times, out>>
-RExitOk == /\ rpc = "ret_ok" /\ out' = Append(out, cur) /\ rpc' = "idle" /\ UNCHANGED <<pos, buf, ip, ri, times, cur, garbled>>
-RExitNone == /\ rpc = "ret_none" /\ rpc' = "stopped" /\ UNCHANGED <<pos, buf, ip, ri, times, cur, out, garbled>>
-Reader == (REnter \/ RTime \/ RHdr("NODATA") \/ RHdr("ZERO") \/ RHdr("FACTOR") \/ RFac \/ RRow \/ RExitOk \/ RExitNone) /\ UNCHANGED wvars
+        /\ UNCHANGED <<buf, times, out>> /\ UNCHANGED wvars
+RExitOk == /\ rpc = "ret_ok" /\ out' = Append(out, cur) /\ rpc' = "idle" /\ UNCHANGED <<pos, buf, ip, ri, times, cur, garbled>> /\ UNCHANGED wvars
+RExitNone == /\ rpc = "ret_none" /\ rpc' = "stopped" /\ UNCHANGED <<pos, buf, ip, ri, times, cur, out, garbled>> /\ UNCHANGED wvars
+Reader == REnter \/ RTime \/ RHdr("NODATA") \/ RHdr("ZERO") \/ RHdr("FACTOR") \/ RFac \/ RRow \/ RExitOk \/ RExitNone
 
 Done == rpc \in {"stopped", "error"} /\ UNCHANGED vars
-Next == Writer \/ Reader \/ Done
+Next == \/ WTime \/ WBlock \/ WClose
+        \/ REnter \/ RTime \/ RHdr("NODATA") \/ RHdr("ZERO") \/ RHdr("FACTOR") \/ RFac \/ RRow \/ RExitOk \/ RExitNone
+        \/ Done
 Spec == Init /\ [][Next]_vars
 FairSpec == Spec /\ WF_vars(Writer \/ Reader)
 
